@@ -166,7 +166,9 @@ def oracle_clusters(ctx, n_runs, directed=False):
         preset = ["vdw", "vdw", "custom"][k % 3] if directed else ["covalent", "vdw", "custom"][k % 3]
         thr = float(rng.uniform(0.4, 1.0))
         if preset == "custom":
-            radii_arg = G.get_radii("covalent", a.get_atomic_numbers()) * float(rng.uniform(0.9, 1.3))
+            radii_arg = G.get_radii("covalent", a.get_atomic_numbers()) * float(rng.uniform(0.7, 0.95) if (directed or k % 2) else rng.uniform(0.95, 1.3))
+            if radii_arg.max() < 1.0 and not directed:
+                thr = float(rng.uniform(0.3, 0.6))      # small radii and a tight threshold: contacts that are bonds with covalent radii are not
         else:
             radii_arg = preset
             if np.isnan(G.get_radii(preset, a.get_atomic_numbers())).any():
@@ -232,7 +234,7 @@ def run(ctx):
         seen.add(key)
         ctx.finding("cluster:" + key, "%s: %s" % (b["kind"], b["complaint"]), {"kind": "failing-input", "case": b,
                     "how": "SBC().get_clusters(atoms, radii=…, bond_threshold=…); compare cluster.get_dimensionality() with matid.geometry.get_dimensionality(cluster.get_atoms(), bond_threshold, radii=radii[cluster.indices])"})
-    if broken and not ctx.findings:
+    if broken and not ctx.unknown_findings():
         ctx.finding("unproved", "proof/correspondence broken, no failing cluster found", {"kind": "broken-obligation", "broken": broken}, found_input=False)
     ctx.coverage["broken"] = [{"what": k, "info": i} for k, i in broken]
     ctx.coverage["correspondence_mismatches"] = len(mism)
